@@ -60,7 +60,8 @@ def mkSession (k : Keys) (initiating : Bool) : Session :=
      k.responderTerm, k.initiatorTerm, k.sessionId⟩
 
 /-- first 16 bytes of a v1 version message: magic ‖ "version" ‖ 5 zero bytes -/
-def v1Prefix (magic : Nat) : List UInt8 := natLE magic 4 ++ ascii "version" ++ List.replicate 5 0
+def v1Prefix (magic : Nat) : List UInt8 :=
+  natLE magic 4 ++ [0x76, 0x65, 0x72, 0x73, 0x69, 0x6f, 0x6e] ++ List.replicate 5 0
 
 inductive Status where
   | ok | io | auth | useV1 | downgradeV1 | wrongnetV1 | noTerminator | contentTooLong
